@@ -30,6 +30,9 @@ pub struct Acc {
     pub verbose: bool,
     /// index of the case being executed (set by the shard loop / replay)
     pub cur_index: u64,
+    pub thorough: bool,
+    /// (case seed, digest) pairs compared across processes by the orchestrator
+    pub digests: Vec<(u64, u64)>,
 }
 
 impl Acc {
